@@ -937,7 +937,8 @@ def search(ctx):
                   {'history': history, 'bundle': bundle, 'strict': True})
   failing_table_stream(ctx, ctx.n(12, 150))
   # (3) record actions applied directly to the metadata tables
-  for i in range(ctx.n(4, 60)):
+  from harness import histgen
+  for i in range(ctx.n(8, 80)):
     rng = random.Random(ctx.seed * 104729 + i)
     gen = make_gen(rng)
     history = [[gen.gen_addtable(None)]]
@@ -952,15 +953,22 @@ def search(ctx):
         Gm.clean(e)
     if oracle(e):
       continue
-    kind = DIRECT_KINDS[i % len(DIRECT_KINDS)]
+    kind = DIRECT_KINDS[(i // 2) % len(DIRECT_KINDS)]
     a = direct_action(kind, rng, e)
     if a is None:
       continue
-    # an uncoupled direct metadata edit either keeps schema == metadata or fails and leaves no trace
-    w = {'history': history, 'bundle': [a], 'no_trace': True}
+    # an uncoupled direct metadata edit either keeps schema == metadata or fails and leaves no trace -- also when
+    # harmless actions follow it in the same bundle (the consistency check belongs to each user action)
+    tail = []
+    if i % 2:
+      ut = [t['tableId'] for t in histgen.Meta(e).user_tables()]
+      tail = [rng.choice([['AddRecord', rng.choice(ut), None, {}], ['Calculate'],
+                          ['BulkAddRecord', rng.choice(ut), [None, None], {}]])] if ut else [['Calculate']]
+    bundle = [a] + tail
+    w = {'history': history, 'bundle': bundle, 'no_trace': True}
     before = (Gm.snapshot(e), Gm.engine_schema(e))
     try:
-      Gm.apply(e, copy.deepcopy([a]))
+      Gm.apply(e, copy.deepcopy(bundle))
       outcome = 'accepted'
     except Exception as ex:
       outcome = 'rejected:' + type(ex).__name__
@@ -968,7 +976,7 @@ def search(ctx):
     trace = outcome != 'accepted' and (Gm.snapshot(e), Gm.engine_schema(e)) != before
     ctx.count(('direct', i), nontrivial=True, kind=kind + ':' + ('violates' if d else ('left-trace' if trace else outcome)))
     if d:
-      ctx.violation(kind, '%r (%s): %s' % (a, outcome, d), minimise(ctx, w))
+      ctx.violation(kind, '%r (%s): %s' % (bundle, outcome, d), minimise(ctx, w))
     elif trace:
       ctx.violation('direct-edit-left-trace', '%r was rejected but the document changed: %s'
                     % (a, Gm.diff_snapshots(before[0], Gm.snapshot(e))[:3]), w)
@@ -1184,6 +1192,7 @@ def hashlib_sha(text):
 
 # sha1 of canonical ASTs, computed by `python -m harness.props.c08` on the tree the model was written from (d061d08)
 PINS = {
+ "glue:Engine.apply_user_actions": "49aa962c2e33a4dbf5ec4bb21a4733421d49a4c1",
  "build_schema:before": "fb7c0c393ebb8a755d0c96de4c1c2fd743d24572",
  "docactions.AddColumn": "7f6fb6340d4a1fdb9c0b17516c0e0e1740471285",
  "docactions.AddTable": "9434dc97a7cb97b0e526e9e1e665313e76f6fbe7",
@@ -1280,7 +1289,7 @@ def gen_docactions(sm2v, os, pins=None):
 
 # whole functions that are glue for the model (not translated): their canonical AST is compared with the one the model
 # was written from
-GLUE = [('schema.py', 'dict_to_col'), ('schema.py', 'dict_list_to_cols'), ('schema.py', 'clone_schema'),
+GLUE = [('engine.py', 'Engine.apply_user_actions'), ('schema.py', 'dict_to_col'), ('schema.py', 'dict_list_to_cols'), ('schema.py', 'clone_schema'),
         ('engine.py', 'Engine.assert_schema_consistent'), ('engine.py', 'Engine.apply_doc_action'),
         ('useractions.py', 'UserActions._updateColumnRecords'), ('useractions.py', 'UserActions._updateTableRecords'),
         ('useractions.py', 'UserActions.doAddColumn'), ('useractions.py', 'UserActions.doAddTable'),
